@@ -22,6 +22,12 @@ func init() {
 
 func c13() []*Ob {
 	return []*Ob{
+		{Prop: "C13", ID: "C13.15", Engine: "UNIT(bytes)", Floor: 1,
+			Desc:  "block bounds are cut in the unit they are compared in: the length handed to frac/token.cut (which slices bytes) never derives from a rune count — with utf8.RuneCountInString(hint) the bounds of the candidate blocks are cut shorter than a multi-byte hint and compare below it, so the blocks that hold the matches are narrowed away on sealed fractions for non-ASCII terms",
+			Check: func(c *Ctx) { cutLengthIsBytes(c) }},
+		{Prop: "C13", ID: "C13.14", Engine: "ORDER(publish/snapshot)", Floor: 2,
+			Desc:  "a pattern search on an active fraction never sees a tid without its value: TokenList.getTokenProvider reads the field's tid list before it takes the tidToVal snapshot (the writer publishes values first, the field list second), so every tid the matcher is handed has a value in the snapshot — with the two reads swapped a token registered in between makes the glob / range matcher index past the value table (shared rule with C07.9)",
+			Check: shared("C07.9")},
 		{Prop: "C13", ID: "C13.13", Engine: "SINK(map key)", Floor: 1,
 			Desc:  "narrowing never identifies: the value of parser.GetHint (the leading fragment of a pattern, used to pick candidate token blocks) is never used as, or concatenated into, the key of a map access — in the calling function or in a repo function it is handed to. A per-request memo of resolved TIDs keyed by field + hint answers the second of two expressions with the same leading text with the first one's tokens",
 			Check: func(c *Ctx) { hintOnlyNarrows(c) }},
